@@ -13,8 +13,8 @@ TB_SOLVER = ("Trusted: Lean 4.33.0 kernel; axioms propext, Classical.choice, Quo
   "(every provider request, every partial-solution snapshot, the final store, the result) on sampled tiny registries incl. cycles, "
   "self-dependencies, empty sets, unknown packages, unavailable versions, 6 strategies; u32 counters as Nat; IndexMap / PriorityQueue / "
   "FxHashMap as association lists (queue tie-breaking is an input of the model, hash iteration order canonicalised); fuel. "
-  "The mirror runs over Range<u32>, an 8-bit set, a 2-element-universe set and a set with a non-injective Display, against release and "
-  "(quick: light) debug builds; deep / wide / late-conflict / scale runs reach decision levels and sizes around 2^8 and 2^16; when /repo/src "
+  "The mirror runs over Range<u32>, an 8-bit set, a 2-element-universe set and a set with a non-injective Display, and package names with a colliding Hash, against release and "
+  "(quick: light) debug builds, with a log sink that formats every record; deep / wide / late-conflict / scale runs reach decision levels and sizes around 2^8 and 2^16; when /repo/src "
   "differs from source_baseline.json the quick tier adds the thorough scopes and inputs around every integer constant new in a changed file (DESIGN.md 4.8).")
 T = {
  "C01": None, "C04": None, "C05": None, "C14": None, "C07": None, "C08": None, "C09": None,
